@@ -101,6 +101,55 @@ Inductive supported : obs -> Prop :=
 | S_recfilter q : supported (ORecFilter q)
 | S_call a : a <> AProbe -> supported (OCall a).
 
+(** Thunks without a reference to the enclosing record (outside literal values). The relation is
+    about such thunks; the recursive environment is treated in RecEnv.v. *)
+Fixpoint sf (t : thunk) : bool :=
+  match t with
+  | TVal _ => true
+  | TCtr _ t' => sf t'
+  | TObs _ t' => sf t'
+  | TApp2 _ a b => sf a && sf b
+  | TMerge a b => sf a && sf b
+  | TEq a b => sf a && sf b
+  | TRecLit fs => (fix go (fs : list (string * thunk)) : bool :=
+                     match fs with [] => true | (_, x) :: fs' => sf x && go fs' end) fs
+  | TSelf => false
+  end.
+
+Lemma subst_sf : forall v t, sf t = true -> subst_self v t = t.
+Proof.
+  intros v. fix IH 1. intros [r|c t|o t|f a b|a b|a b|fs|] H; cbn in *; try discriminate; auto.
+  - now rewrite IH.
+  - now rewrite IH.
+  - apply andb_prop in H as [H1 H2]. now rewrite !IH.
+  - apply andb_prop in H as [H1 H2]. now rewrite !IH.
+  - apply andb_prop in H as [H1 H2]. now rewrite !IH.
+  - f_equal. revert fs H. fix IHfs 1. intros [|[k x] fs] H; cbn in *; auto.
+    apply andb_prop in H as [H1 H2]. rewrite IH by exact H1. f_equal. now apply IHfs.
+Qed.
+
+Lemma sf_tctrs : forall p t, sf (tctrs p t) = sf t.
+Proof. induction p as [|c p IH]; intros t; cbn; auto. unfold tctrs in *. cbn. now rewrite IH. Qed.
+
+Definition rsf (fs : list field) : bool := forallb (fun fl => sf (fst (snd fl))) fs.
+
+Lemma close_sf : forall fs, rsf fs = true -> close_rec fs = fs.
+Proof.
+  intros fs H. unfold close_rec.
+  assert (forall l v, rsf l = true -> map (fun fl : field => (fst fl, (subst_self v (fst (snd fl)), snd (snd fl)))) l = l) as G.
+  { induction l as [|[k [x p]] l IH]; intros v Hl; cbn in *; auto.
+    apply andb_prop in Hl as [H1 H2]. rewrite subst_sf by exact H1. f_equal. now apply IH. }
+  now apply G.
+Qed.
+
+Lemma sf_atom : forall a, sf (thunk_of_atom a) = true.
+Proof. intros []; reflexivity. Qed.
+
+Lemma sf_tree : forall t, sf (thunk_of_tree t) = true.
+Proof. intros [a|xs|fs]; cbn; auto. apply sf_atom. Qed.
+
+Ltac sfx := cbn [fst snd] in *; unfold fld_thunk in *; cbn [fst snd] in *; rewrite ?sf_tctrs in *; cbn [sf andb]; rewrite ?sf_tctrs, ?sf_atom, ?sf_tree; auto.
+
 Section Rel.
   Variable Hole : forall A : Type, res A -> Prop.
   Hypothesis Hole_bind : forall A B (r : res A) (k : A -> res B), Hole A r -> Hole B (bind r k).
@@ -128,8 +177,9 @@ Section Rel.
   | RV_rec fs1 fs2 :
       Forall2 (fun f1 f2 : field =>
                  fst f1 = fst f2 /\
-                 forall q1 q2 n, same_ctrs q1 (snd (snd f1)) -> same_ctrs q2 (snd (snd f2)) ->
-                   RelR RelV (eval n (tctrs q1 (fst (snd f1)))) (eval n (tctrs q2 (fst (snd f2)))))
+                 (sf (fst (snd f1)) = true /\ sf (fst (snd f2)) = true /\
+                  forall q1 q2 n, same_ctrs q1 (snd (snd f1)) -> same_ctrs q2 (snd (snd f2)) ->
+                    RelR RelV (eval n (tctrs q1 (fst (snd f1)))) (eval n (tctrs q2 (fst (snd f2))))))
         fs1 fs2 ->
       RelV (VRec fs1) (VRec fs2)
   | RV_fun f1 f2 : fn_sim f1 f2 -> RelV (VFun f1) (VFun f2).
@@ -212,6 +262,7 @@ Section Rel.
   (** ** Contract application respects the relation, whatever the labels *)
 
   Definition FR (d1 d2 : thunk * list pc) : Prop :=
+    sf (fst d1) = true /\ sf (fst d2) = true /\
     forall q1 q2 n, same_ctrs q1 (snd d1) -> same_ctrs q2 (snd d2) ->
       RelC (eval n (tctrs q1 (fst d1))) (eval n (tctrs q2 (fst d2))).
   Definition FldR (f1 f2 : field) : Prop := fst f1 = fst f2 /\ FR (snd f1) (snd f2).
@@ -248,6 +299,15 @@ Section Rel.
   Proof.
     intros. unfold arr_elems. rewrite map_map. apply map_ext. intros. apply tctrs_snoc.
   Qed.
+
+  Lemma FldR_rsf : forall fs1 fs2, Forall2 FldR fs1 fs2 -> rsf fs1 = true /\ rsf fs2 = true.
+  Proof.
+    induction 1 as [|f1 f2 l1 l2 [E [S1 [S2 F]]] _ [IH1 IH2]]; cbn; auto.
+    unfold rsf in *. rewrite S1, S2, IH1, IH2. auto.
+  Qed.
+
+  Lemma FldR_close : forall fs1 fs2, Forall2 FldR fs1 fs2 -> close_rec fs1 = fs1 /\ close_rec fs2 = fs2.
+  Proof. intros fs1 fs2 H. destruct (FldR_rsf _ _ H). split; now apply close_sf. Qed.
 
   Lemma FldR_keys : forall fs1 fs2, Forall2 FldR fs1 fs2 -> map fst fs1 = map fst fs2.
   Proof. induction 1 as [|f1 f2 l1 l2 [E _] _ IH]; cbn; congruence. Qed.
@@ -296,20 +356,22 @@ Section Rel.
       intros x y Hxy. cbn beta. rewrite !eval_TCtr. now apply IHc.
     - (* CDictT *)
       inversion HV; subst; try (apply relR_blame).
+      destruct (FldR_close _ _ H0) as [C1 C2]. rewrite C1, C2.
       constructor. apply RV_rec'. unfold prim_record_map.
-      eapply Forall2_map2; [exact H0|]. intros f1 f2 [E F]. split; [exact E|].
+      eapply Forall2_map2; [exact H0|]. intros f1 f2 [E F]. destruct F as [SF1 [SF2 F]]. split; [exact E|]. split; [sfx|]. split; [sfx|].
       intros q1 q2 n S1 S2. cbn [fst snd] in *. apply same_ctrs_nil in S1, S2. subst. cbn [tctrs fold_left].
       rewrite !eval_TCtr. apply IHc. apply F; apply same_ctrs_refl.
     - (* CDictC *)
       inversion HV; subst; try (apply relR_blame).
       constructor. apply RV_rec'. unfold prim_record_lazy_app.
-      eapply Forall2_map2; [exact H0|]. intros f1 f2 [E F]. split; [exact E|].
+      eapply Forall2_map2; [exact H0|]. intros f1 f2 [E F]. destruct F as [SF1 [SF2 F]]. split; [exact E|]. split; [sfx|]. split; [sfx|].
       intros q1 q2 n S1 S2. cbn [fst snd] in *.
       apply same_ctrs_snoc_inv in S1 as [q1' [b1' [-> S1]]].
       apply same_ctrs_snoc_inv in S2 as [q2' [b2' [-> S2]]]. cbn [snd].
       rewrite !tctrs_snoc, !eval_TCtr. apply IHc. now apply F.
     - (* CRecT *)
-      inversion HV; subst; try (apply relR_blame).
+      inversion HV; subst; try (apply relR_blame). cbv zeta.
+      destruct (FldR_close _ _ H0) as [C1 C2]. rewrite C1, C2.
       pose proof (FldR_keys _ _ H0) as K.
       assert (forallb (fun n => has_key n fs1) names = forallb (fun n => has_key n fs2) names) as E1.
       { apply forallb_ext. intros. now apply has_key_keys. }
@@ -324,7 +386,8 @@ Section Rel.
       induction names as [|nm names IHn]; cbn; [constructor|].
       pose proof (FldR_lookup _ _ nm H0) as L.
       destruct (lookup nm fs1) as [[x1 p1]|], (lookup nm fs2) as [[x2 p2]|]; try contradiction; cbn; auto.
-      constructor; auto. split; [reflexivity|].
+      destruct L as [SL1 [SL2 L]].
+      constructor; auto. split; [reflexivity|]. split; [sfx|]. split; [sfx|].
       intros q1 q2 n S1 S2. cbn [fst snd] in *. apply same_ctrs_nil in S1, S2. subst. cbn [tctrs fold_left].
       rewrite !eval_TCtr. apply IHc. apply (L p1 p2 n); apply same_ctrs_refl.
     - (* CRecC *)
@@ -343,7 +406,7 @@ Section Rel.
       match goal with |- context [if ?b then _ else _] => destruct b; [apply relR_blame|] end.
       destruct (negb (forallb (fun n => has_key n fs2) names)); [(apply relR_err; discriminate)|].
       constructor. apply RV_rec'. apply Forall2_app; [exact FL|].
-      eapply Forall2_map2; [exact FC|]. intros f1 f2 [E F]. split; [exact E|].
+      eapply Forall2_map2; [exact FC|]. intros f1 f2 [E F]. destruct F as [SF1 [SF2 F]]. split; [exact E|]. split; [sfx|]. split; [sfx|].
       intros q1 q2 n S1 S2. cbn [fst snd] in *.
       apply same_ctrs_snoc_inv in S1 as [q1' [b1' [-> S1]]].
       apply same_ctrs_snoc_inv in S2 as [q2' [b2' [-> S2]]]. cbn [snd].
@@ -422,7 +485,7 @@ Section Rel.
                 (TVal (Ok (VRec (map (fun '(k, a) => (k, (thunk_of_atom a, []))) fs))))) as H.
       { apply relT_val. constructor. apply RV_rec'.
         induction fs as [|[k a] fs IH]; cbn in *; constructor.
-        - split; [reflexivity|].
+        - split; [reflexivity|]. split; [sfx|]. split; [sfx|].
           intros q1 q2 n S1 S2. cbn [fst snd] in *. apply same_ctrs_nil in S1, S2. subst. apply atom_rel.
           intros ->. apply OK. now left.
         - apply IH. intros C. apply OK. now right. }
@@ -443,7 +506,10 @@ Section Rel.
   Proof. intros e N v1 v2 H. inversion H; subst; cbn; try (apply relR_err; assumption). constructor. exact H0. Qed.
 
   Lemma as_rec_rel : forall e, e <> EProbe -> forall v1 v2, RelV v1 v2 -> RelR (Forall2 FldR) (as_rec e v1) (as_rec e v2).
-  Proof. intros e N v1 v2 H. inversion H; subst; cbn; try (apply relR_err; assumption). constructor. exact H0. Qed.
+  Proof.
+    intros e N v1 v2 H. inversion H; subst; cbn; try (apply relR_err; assumption). constructor.
+    destruct (FldR_close fs1 fs2 H0) as [-> ->]. exact H0.
+  Qed.
 
   Lemma fun2_rel : forall f a1 a2 b1 b2,
     RelC a1 a2 -> RelC b1 b2 -> RelC (fun2_sem f a1 b1) (fun2_sem f a2 b2).
@@ -492,7 +558,8 @@ Section Rel.
         pose proof (ArrR_elems _ _ _ _ p1 p2 H0 (same_ctrs_refl _) (same_ctrs_refl _)) as F.
         clear -F IH. induction F; constructor; auto.
       + intros xs ? <-. now constructor.
-    - eapply relR_bind with (RA := eq).
+    - destruct (FldR_close _ _ H0) as [C1 C2]. rewrite C1, C2.
+      eapply relR_bind with (RA := eq).
       + apply force_list_rel. pose proof (FldR_thunks _ _ H0) as F.
         clear -F IH. induction F; constructor; auto.
       + intros xs ? <-. rewrite (FldR_keys _ _ H0). now constructor.
@@ -534,14 +601,14 @@ Section Rel.
       rewrite E. pose proof (FldR_lookup _ _ (fst f2) HA) as L.
       destruct (lookup (fst f2) a1) as [[x1 p1]|], (lookup (fst f2) a2) as [[x2 p2]|]; try contradiction; cbn; auto.
       constructor; auto. split; cbn; intros n.
-      + apply (L p1 p2 n); apply same_ctrs_refl.
+      + apply (proj2 (proj2 L) p1 p2 n); apply same_ctrs_refl.
       + apply F; apply same_ctrs_refl.
     - clear -HA HB. induction HA as [|f1 f2 l1 l2 [E F] _ IH]; cbn; [constructor|].
       rewrite E. pose proof (FldR_lookup _ _ (fst f2) HB) as L.
       destruct (lookup (fst f2) b1) as [[x1 p1]|], (lookup (fst f2) b2) as [[x2 p2]|]; try contradiction; cbn; auto.
       constructor; auto. split; cbn; intros n.
       + apply F; apply same_ctrs_refl.
-      + apply (L p1 p2 n); apply same_ctrs_refl.
+      + apply (proj2 (proj2 L) p1 p2 n); apply same_ctrs_refl.
   Qed.
 
   Lemma forallb_keys : forall (fs1 fs2 : list field) (g1 g2 : list field),
@@ -569,6 +636,7 @@ Section Rel.
       assert (same_keys fs1 fs0 = same_keys fs2 fs3) as ->.
       { unfold same_keys. f_equal; apply forallb_keys; auto. }
       destruct (negb _); [constructor; constructor|].
+      destruct (FldR_close _ _ H) as [C1 C2]. destruct (FldR_close _ _ H0) as [C3 C4]. rewrite C1, C2, C3, C4.
       pose proof (eq_center_rel _ _ _ _ H H0) as C.
       destruct C as [|p1 p2 l1 l2 HP C]; [constructor; constructor|].
       apply eq_pairs_rel; auto. constructor; auto. now apply Forall2_rev.
@@ -858,7 +926,7 @@ Section Rel.
       + apply IHxs.
     - apply RV_rec'.
       revert fs. fix IHfs 1. intros [|[k x] fs]; cbn; constructor.
-      + split; [reflexivity|]. intros q1 q2 n S1 S2. cbn [fst snd] in *.
+      + split; [reflexivity|]. split; [sfx|]. split; [sfx|]. intros q1 q2 n S1 S2. cbn [fst snd] in *.
         apply same_ctrs_nil in S1, S2. subst. apply relT_val. constructor. apply IH.
       + apply IHfs.
   Qed.
@@ -872,16 +940,19 @@ Section Rel.
     eapply relR_bind; [apply (as_rec_rel ETypeErr); [discriminate | exact HV]|]. intros fs1 fs2 HF.
     unfold prim_record_access. pose proof (FldR_lookup _ _ k HF) as L.
     destruct (lookup k fs1) as [[x1 p1]|], (lookup k fs2) as [[x2 p2]|]; try contradiction; cbn.
-    - apply (L p1 p2 m); apply same_ctrs_refl.
+    - apply (proj2 (proj2 L) p1 p2 m); apply same_ctrs_refl.
     - (apply relR_err; discriminate).
   Qed.
 
+  Definition RelTS (t1 t2 : thunk) : Prop := sf t1 = true /\ sf t2 = true /\ RelT t1 t2.
+
   Lemma access_prim_rel : forall k fs1 fs2, Forall2 FldR fs1 fs2 ->
-    RelR RelT (prim_record_access k fs1) (prim_record_access k fs2).
+    RelR RelTS (prim_record_access k fs1) (prim_record_access k fs2).
   Proof.
     intros k fs1 fs2 HF. unfold prim_record_access. pose proof (FldR_lookup _ _ k HF) as L.
     destruct (lookup k fs1) as [[x1 p1]|], (lookup k fs2) as [[x2 p2]|]; try contradiction.
-    - constructor. intros n. apply (L p1 p2 n); apply same_ctrs_refl.
+    - destruct L as [SL1 [SL2 L]]. constructor. split; [sfx|]. split; [sfx|].
+      intros n. apply (L p1 p2 n); apply same_ctrs_refl.
     - apply relR_err. discriminate.
   Qed.
 
@@ -897,29 +968,29 @@ Section Rel.
         rewrite !(has_key_keys _ fs1 fs2 (FldR_keys _ _ HF)). reflexivity. }
       destruct (negb (is_binding fs2)); [apply relR_err; discriminate|].
       eapply relR_bind.
-      { eapply relR_bind; [apply access_prim_rel, HF|]. intros t1 t2 HT. apply (HT m). }
+      { eapply relR_bind; [apply access_prim_rel, HF|]. intros t1 t2 HT. apply (proj2 (proj2 HT) m). }
       intros vn1 vn2 HVN. inversion HVN; subst; try (apply relR_err; discriminate).
-      eapply relR_bind; [apply access_prim_rel, HF|]. intros y1 y2 HY.
+      eapply relR_bind; [apply access_prim_rel, HF|]. intros y1 y2 [SY1 [SY2 HY]].
       unfold prim_record_insert. rewrite (has_key_keys s _ _ (FldR_keys _ _ HA)).
       destruct (has_key s a2); [apply relR_err; discriminate|].
       apply IH. apply Forall2_app; auto. constructor; [|constructor].
-      split; [reflexivity|]. intros q1 q2 n S1 S2. cbn [fst snd] in *.
+      split; [reflexivity|]. split; [sfx|]. split; [sfx|]. intros q1 q2 n S1 S2. cbn [fst snd] in *.
       apply same_ctrs_nil in S1, S2. subst. apply HY.
   Qed.
 
   Lemma rec_filter_rel : forall m q (b1 b2 : list (string * thunk)),
-    Forall2 (fun x y => fst x = fst y /\ RelT (snd x) (snd y)) b1 b2 ->
+    Forall2 (fun x y => fst x = fst y /\ sf (snd x) = true /\ sf (snd y) = true /\ RelT (snd x) (snd y)) b1 b2 ->
     forall a1 a2, Forall2 FldR a1 a2 ->
     RelC (rec_filter_go (eval m) q b1 a1) (rec_filter_go (eval m) q b2 a2).
   Proof.
-    intros m q. induction 1 as [|[n1 x1] [n2 x2] l1 l2 [E HX] _ IH]; intros a1 a2 HA; cbn [rec_filter_go].
+    intros m q. induction 1 as [|[n1 x1] [n2 x2] l1 l2 [E [SX1 [SX2 HX]]] _ IH]; intros a1 a2 HA; cbn [rec_filter_go].
     - constructor. now apply RV_rec'.
     - cbn [fst snd] in *. subst n2. eapply relR_bind with (RA := eq).
       + destruct q; cbn [pred2_sem]; try (constructor; reflexivity).
         eapply relR_bind; [apply (HX m)|]. intros v1 v2 HV.
         eapply relR_bind; [apply as_num_rel, HV|]. intros z ? <-. now constructor.
       + intros b ? <-. apply IH. destruct b; auto. apply Forall2_app; auto. constructor; [|constructor].
-        split; [reflexivity|]. intros q1 q2 n S1 S2. cbn [fst snd] in *.
+        split; [reflexivity|]. split; [sfx|]. split; [sfx|]. intros q1 q2 n S1 S2. cbn [fst snd] in *.
         apply same_ctrs_nil in S1, S2. subst. apply HX.
   Qed.
 
@@ -1017,7 +1088,7 @@ Section Rel.
     - (* get *) rec_arg HT m EBlameNeg.
       unfold prim_record_access. pose proof (FldR_lookup _ _ k HF) as L.
       destruct (lookup k fs1) as [[x1 p1]|], (lookup k fs2) as [[x2 p2]|]; try contradiction; cbn.
-      + apply (L p1 p2 m); apply same_ctrs_refl.
+      + apply (proj2 (proj2 L) p1 p2 m); apply same_ctrs_refl.
       + (apply relR_err; discriminate).
     - (* fields *) rec_arg HT m EBlameNeg. constructor.
       rewrite (fields_names_only fs1 fs2 (FldR_keys _ _ HF)). unfold prim_record_fields.
@@ -1025,31 +1096,31 @@ Section Rel.
     - (* values *) rec_arg HT m EBlameNeg. constructor. apply RV_arr', ArrR_of_elems.
       apply FldR_thunks. now apply sort_fields_rel.
     - (* recmap *) rec_arg HT m EBlameNeg. constructor. apply RV_rec'. unfold prim_record_map.
-      eapply Forall2_map2; [exact HF|]. intros f1 f2 [E F]. split; [exact E|].
+      eapply Forall2_map2; [exact HF|]. intros f1 f2 [E F]. destruct F as [SF1 [SF2 F]]. split; [exact E|]. split; [sfx|]. split; [sfx|].
       intros q1 q2 n S1 S2. cbn [fst snd] in *. apply same_ctrs_nil in S1, S2. subst. cbn [tctrs fold_left].
       rewrite E. apply relT_app2; [apply relT_val; constructor; constructor|].
       intros n'. apply F; apply same_ctrs_refl.
     - (* mapvalues *) rec_arg HT m EBlameNeg. constructor. apply RV_rec'. unfold prim_record_map.
-      eapply Forall2_map2; [exact HF|]. intros f1 f2 [E F]. split; [exact E|].
+      eapply Forall2_map2; [exact HF|]. intros f1 f2 [E F]. destruct F as [SF1 [SF2 F]]. split; [exact E|]. split; [sfx|]. split; [sfx|].
       intros q1 q2 n S1 S2. cbn [fst snd] in *. apply same_ctrs_nil in S1, S2. subst. cbn [tctrs fold_left].
       apply IHsupported. intros n'. apply F; apply same_ctrs_refl.
     - (* freeze *) rec_arg HT m ETypeErr. constructor. apply RV_rec'. unfold prim_record_freeze.
-      eapply Forall2_map2; [exact HF|]. intros f1 f2 [E F]. split; [exact E|].
+      eapply Forall2_map2; [exact HF|]. intros f1 f2 [E F]. destruct F as [SF1 [SF2 F]]. split; [exact E|]. split; [sfx|]. split; [sfx|].
       intros q1 q2 n S1 S2. cbn [fst snd] in *. apply same_ctrs_nil in S1, S2. subst. cbn [tctrs fold_left].
       apply F; apply same_ctrs_refl.
     - (* insert *) rec_arg HT m EBlameNeg.
       assert (Forall2 FldR (prim_record_freeze fs1) (prim_record_freeze fs2)) as HF'.
-      { unfold prim_record_freeze. eapply Forall2_map2; [exact HF|]. intros f1 f2 [E F]. split; [exact E|].
+      { unfold prim_record_freeze. eapply Forall2_map2; [exact HF|]. intros f1 f2 [E F]. destruct F as [SF1 [SF2 F]]. split; [exact E|]. split; [sfx|]. split; [sfx|].
         intros q1 q2 n S1 S2. cbn [fst snd] in *. apply same_ctrs_nil in S1, S2. subst. cbn [tctrs fold_left].
         apply F; apply same_ctrs_refl. }
       unfold prim_record_insert. rewrite (has_key_keys k _ _ (FldR_keys _ _ HF')).
       destruct (has_key k (prim_record_freeze fs2)); [(apply relR_err; discriminate)|].
       constructor. apply RV_rec'. apply Forall2_app; auto. constructor; [|constructor].
-      split; [reflexivity|]. intros q1 q2 n S1 S2. cbn [fst snd] in *. apply same_ctrs_nil in S1, S2. subst.
+      split; [reflexivity|]. split; [sfx|]. split; [sfx|]. intros q1 q2 n S1 S2. cbn [fst snd] in *. apply same_ctrs_nil in S1, S2. subst.
       apply relT_val. constructor. constructor.
     - (* remove *) rec_arg HT m EBlameNeg.
       assert (Forall2 FldR (prim_record_freeze fs1) (prim_record_freeze fs2)) as HF'.
-      { unfold prim_record_freeze. eapply Forall2_map2; [exact HF|]. intros f1 f2 [E F]. split; [exact E|].
+      { unfold prim_record_freeze. eapply Forall2_map2; [exact HF|]. intros f1 f2 [E F]. destruct F as [SF1 [SF2 F]]. split; [exact E|]. split; [sfx|]. split; [sfx|].
         intros q1 q2 n S1 S2. cbn [fst snd] in *. apply same_ctrs_nil in S1, S2. subst. cbn [tctrs fold_left].
         apply F; apply same_ctrs_refl. }
       unfold prim_record_remove. rewrite (has_key_keys k _ _ (FldR_keys _ _ HF')).
@@ -1060,9 +1131,9 @@ Section Rel.
     - (* toarray *) rec_arg HT m EBlameNeg. constructor. apply RV_arr', ArrR_of_elems.
       eapply Forall2_map2; [apply sort_fields_rel, HF|]. intros f1 f2 [E F] n. rewrite !eval_TRecLit.
       constructor. apply RV_rec'. cbn [map]. constructor; [|constructor; [|constructor]].
-      + split; [reflexivity|]. intros q1 q2 n' S1 S2. cbn [fst snd] in *. apply same_ctrs_nil in S1, S2. subst.
+      + split; [reflexivity|]. split; [sfx|]. split; [sfx|]. intros q1 q2 n' S1 S2. cbn [fst snd] in *. apply same_ctrs_nil in S1, S2. subst.
         rewrite E. apply relT_val. constructor. constructor.
-      + split; [reflexivity|]. intros q1 q2 n' S1 S2. cbn [fst snd] in *. apply same_ctrs_nil in S1, S2. subst.
+      + split; [reflexivity|]. split; [sfx|]. split; [sfx|]. intros q1 q2 n' S1 S2. cbn [fst snd] in *. apply same_ctrs_nil in S1, S2. subst.
         cbn [tctrs fold_left]. rewrite E. apply access_cong. apply relT_val. constructor. now apply RV_rec'.
     - (* fromarray *) arr_arg HT m EBlameNeg. apply from_array_rel; [|constructor].
       eapply ArrR_elems; eauto; apply same_ctrs_refl.
@@ -1082,16 +1153,18 @@ Section Rel.
       inversion HV as [| | | |fs1 fs2 HF|]; subst; try (apply relR_err; discriminate).
       rewrite (has_key_keys k _ _ (FldR_keys _ _ HF)).
       destruct (has_key k fs2); [|apply relR_err; discriminate].
-      eapply relR_bind; [apply access_prim_rel, HF|]. intros t1' t2' HT'. apply (HT' m).
+      destruct (FldR_close _ _ HF) as [C1 C2]. rewrite C1, C2.
+      eapply relR_bind; [apply access_prim_rel, HF|]. intros t1' t2' HT'. apply (proj2 (proj2 HT') m).
     - (* patrest *)
       eapply relR_bind; [apply (HT m)|]. intros v1 v2 HV.
       inversion HV as [| | | |fs1 fs2 HF|]; subst; try (apply relR_err; discriminate).
       rewrite (has_key_keys k _ _ (FldR_keys _ _ HF)).
       destruct (has_key k fs2) eqn:E; [|apply relR_err; discriminate].
+      destruct (FldR_close _ _ HF) as [C1 C2]. rewrite C1, C2.
       unfold prim_record_remove. rewrite (has_key_keys k _ _ (FldR_keys _ _ HF)), E.
       constructor. apply RV_rec'. now apply swap_remove_rel.
     - (* recfilter *) rec_arg HT m EBlameNeg. apply rec_filter_rel; [|constructor].
-      eapply Forall2_map2; [apply sort_fields_rel, HF|]. intros f1 f2 [E F]. cbn [fst snd]. split; [exact E|].
+      eapply Forall2_map2; [apply sort_fields_rel, HF|]. intros f1 f2 [E F]. cbn [fst snd]. destruct F as [SF1 [SF2 F]]. split; [exact E|]. split; [sfx|]. split; [sfx|].
       rewrite E. apply access_cong. apply relT_val. constructor. now apply RV_rec'.
     - (* call *)
       eapply relR_bind; [apply (HT m)|]. intros v1 v2 HV.
